@@ -193,6 +193,8 @@ def failure_key(run, ops):
         return f"leak {cls[1]} {cls[2]}|" + key_of_logs(ops)
     if cls[0] == "user":
         return "panic"
+    if cls[0] == "internal" and " ".join(cls[1:4]) in ("currently reading from", "currently writing to"):
+        return "panic"      # loom's report of an access to a cell from inside another access
     if cls[0] == "causality":
         return "causality"
     if cls[0] == "branchlimit":
